@@ -155,3 +155,17 @@ def big_specs(tier, delays_ok=True, rules_ok=True, hill_ok=True):
             if rules_ok:
                 out.append(spec('big-rules/%d' % size, names + ['X', 'Y'], x0r, rx[::-1], P, rules[:2 + (rot % 3)]))
     return out
+
+
+def magnitude_specs():
+    """parameter and initial values of very small and very large magnitude (named and numeric), which a writer must not round"""
+    out = []
+    x0 = {'A': 2.0, 'B': 3.0, 'C': 1.5}
+    for tag, kon, km, knum in (('tiny', 3.2e-13, 7.5e-14, 1.5e-14), ('tiny17', 1.234567890123456e-9, 2.0000000000000004e-7, 1.0000000000000002e-3),
+                               ('huge', 6.02214076e23, 3.3e15, 1.25e18)):
+        P = dict(PARAMS, kon=kon, Km=km)
+        rx = [ma(['A', 'B'], ['C'], 'kon'), ma(['C'], ['A'], knum),
+              gen(['A'], ['B'], ('/', ('*', ID('kf'), ID('A')), ('+', ID('A'), ID('Km')))), gen(['B'], [], ('*', ID('kon'), ('*', ID('B'), ID('Km'))))]
+        out.append(spec('magnitude/' + tag, SP, x0, rx, P))
+        out.append(spec('magnitude/%s-initial' % tag, SP, {'A': kon, 'B': 3.0, 'C': km}, rx[:2], P))
+    return out
